@@ -453,6 +453,87 @@ def walk_follows_links(R, ctx):
          "every query follows links" if not nofollow else "%s asks about the link itself with `%s`: what a symbolic link points to is never processed" % (norm_path(nofollow[0][0]["path"]).split("::")[-1], nofollow[0][1].get("fname")))
 
 
+def rule_state(R, ctx):
+    """A rule object serves every file of a batch: what it remembers from one file must not change what it does to the next."""
+    import posixpath
+    from .. import peval
+    from ..peval import make, ok, Enum, Struct, NONE
+    from ..pathmodel import PathV
+    rid = "C11.rule-state"
+    lib = ctx.lib
+    R.rule(rid, "every Rule implementor with an interior-mutable field (OnceLock, RefCell, Mutex, Cell, atomics), built by each of its "
+                "one-argument public constructors and evaluated from its typed tree (sa/peval.py; files are read through a hook that answers "
+                "with a text naming the path): processing file B after file A (different directories, no configured project location) "
+                "changes B's tokens exactly as a fresh rule object does -- a value cached from the first file's context must not be served "
+                "to the second (the order of enumeration would then decide the output)")
+    found = []
+    for p, a in sorted(lib.adts.items()):
+        proc = lib.fn("<%s as rules::Rule>::process" % p)
+        if proc is None or not thir.body_of(proc):
+            continue
+        cells = [f["name"] for v in a.get("variants", []) for f in v["fields"] if any(m in f.get("tys", "") for m in MUT_MARKERS)]
+        if cells:
+            found.append((p, proc, cells))
+    R.info("C11.rule-state: rule types with interior-mutable fields: %s" % [(p.split("::")[-1], c) for p, _, c in found])
+
+    def hook(pe, path, fname, args, node):
+        if fname == "read_to_string" and path.startswith("std::fs::") and args and isinstance(args[0], str):
+            return ok("text of " + posixpath.normpath(str(args[0])) + "\n")
+        if any(isinstance(a_, Struct) and a_.adt == "#Block" for a_ in args):
+            if fname.startswith("mutate_") and "token" in fname:
+                tok = make(lib, "nodes::token::Token", {"position": Enum("nodes::token::Position", "Any", {"content": "x"}), "leading_trivia": [], "trailing_trivia": []})
+                pe._tokens.append(tok)
+                return tok
+            return peval.UNIT
+        return NotImplemented
+
+    def context(loc):
+        over = {}
+        for f in lib.adts["rules::Context"]["variants"][0]["fields"]:
+            t = f["tys"]
+            if t == "std::path::PathBuf":
+                over[f["name"]] = PathV(loc + "/main.lua")
+            elif "Resources" in t:
+                over[f["name"]] = Struct("#Resources", {})
+            elif t.startswith("core::option::Option<"):
+                over[f["name"]] = NONE
+            elif t.endswith("str"):
+                over[f["name"]] = ""
+        return make(lib, "rules::Context", over)
+
+    def observe(pe, rule, proc, loc):
+        before = len(pe._tokens)
+        r = pe.call_fn(proc, [rule, Struct("#Block", {}), context(loc)])
+        return (repr(r)[:60], [repr(t.fields) for t in pe._tokens[before:]])
+    for p, proc, cells in found:
+        short = p.split("::")[-1]
+        ctors = [f for k, f in lib.fns.items() if k.startswith(p + "::") and thir.body_of(f) and len(f["thir"].get("params", [])) == 1
+                 and f.get("vis", "pub") in ("pub", "public", None, "") and lib.ty_str(f["thir"]["params"][0]["t"]) not in ("&Self", "Self", "&mut Self")
+                 and "self" not in str(f["thir"]["params"][0].get("pat", {}).get("name", ""))]
+        n = 0
+        for ctor in ctors:
+            try:
+                pe = peval.PEval(lib, ctx.an, hook=hook)
+                pe._tokens = []
+                rule = pe.call_fn(ctor, ["header.txt"])
+                if not (isinstance(rule, Struct) and rule.adt == p):
+                    continue
+                observe(pe, rule, proc, "dir_a")
+                second = observe(pe, rule, proc, "dir_b")
+                pe2 = peval.PEval(lib, ctx.an, hook=hook)
+                pe2._tokens = []
+                fresh = observe(pe2, pe2.call_fn(ctor, ["header.txt"]), proc, "dir_b")
+                unknown = [w for w in pe.unknown_reasons + pe2.unknown_reasons if w.startswith(("branch on unknown", "match on unknown"))]
+            except peval.OutOfFuel:
+                second, fresh, unknown = None, None, ["no termination"]
+            n += 1
+            good = second is not None and second == fresh and not unknown
+            R.ob(rid, "%s|%s|second-file-as-fresh" % (short, ctor["path"].split("::")[-1]), good, ctx.where(proc),
+                 "the second file is processed as by a fresh rule" if good else
+                 "after a first file in another directory the second file gets %s; a fresh rule gives %s %s" % (second, fresh, unknown[:1]))
+        R.require(rid, "%s|anchor:constructors" % short, n >= 1, ctx.where(proc), "no one-argument constructor of %s could be evaluated (cells: %s)" % (short, cells))
+
+
 def mirror(R, ctx):
     """Every file found under the input gets one work item whose output is the mirrored relative path -- however the input is spelled."""
     import posixpath
@@ -567,6 +648,7 @@ def run(R, ctx):
     order(R, ctx)
     walk_follows_links(R, ctx)
     mirror(R, ctx)
+    rule_state(R, ctx)
     # the one documented way for a readable, parseable file to get no output is the top-level filter: its decision table (shared with C20)
     from . import c20
     c20.table(R, ctx, rid="C11.filter")
